@@ -5,8 +5,8 @@ import PyaModel.Generated.EmitConsts
 
 1. `showError` restated through two pure functions of the call (`gateOpen`, `verdict`).
 2. Disabling codes: a simulation between the run with `en` and the run with `en` minus `S`.
-3. The run's failure list / `used` set in closed form (`nfFails`, `creditOf`), and their agreement with the
-   declarative spec (`nub`, `suppressed`, `credited`) outside the wrap-around class.
+3. The run's failure list / `used` set in closed form, and their agreement with the declarative spec
+   (`nub`, `suppressed`, `credited`) — for every well-formed stream since the repair 0cba813.
 4. The end-of-file passes.
 5. String lemmas about the comment texts (`withTrailing`, `ownLine`).
 6. Inserting a comment into a file without ignore comments.
@@ -22,6 +22,8 @@ theorem gen_ignoreComment : IC = Gen.ignoreComment.toList := by decide
 theorem gen_bareRegexSuffix : Gen.bareRegexSuffix = "(?!\\[)" := by decide
 theorem gen_unusedIgnoreCode : Gen.unusedIgnoreCode = "unused_ignore" := by decide
 theorem gen_bareIgnoreCode : Gen.bareIgnoreCode = "bare_ignore" := by decide
+/-- `_lines()` splits at `\\r\\n`, `\\r`, `\\n` — what `pyLines` (via `isReBreak` and the `afterCR` state) models. -/
+theorem gen_linesSplitRegex : Gen.linesSplitRegex = "\\r\\n|\\r|\\n" := by decide
 
 /-! ## 1. `showError` through pure functions of the call -/
 
@@ -40,7 +42,7 @@ def verdict (lines : List Line) (r : Raw) : Verdict :=
     | none => .crash
     | some l =>
       if trailingMatch l r.code then .ign ((ln : Int) - 1)
-      else match pyGet lines ((ln : Int) - 2) with
+      else match (if 2 ≤ ln then pyGet lines ((ln : Int) - 2) else some []) with
         | none => .crash
         | some p => if ownLineMatch p r.code then .ign ((ln : Int) - 2) else .show
 
@@ -83,7 +85,7 @@ theorem showError_eq (en : String → Bool) (lines : List Line) (st : St) (r : R
               by_cases ht : trailingMatch l r.code = true
               · simp [ht]
               · simp only [ht, Bool.false_eq_true, if_false]
-                cases pyGet lines ((ln : Int) - 2) with
+                cases (if 2 ≤ ln then pyGet lines ((ln : Int) - 2) else some []) with
                 | none => rfl
                 | some p =>
                   simp only
@@ -556,7 +558,22 @@ theorem ownLineAt_bound {lines : List Line} {j : Nat} {code : Option String}
   | none => rw [hl] at h; cases h
   | some l => rcases List.getElem?_eq_some_iff.mp hl with ⟨w, _⟩; exact w
 
-theorem verdict_eq (lines : List Line) (r : Raw) (hwf : wfAt lines r = true) (hw : wrapsAt lines r = false) :
+theorem ownLineMatch_nil (code : Option String) : ownLineMatch [] code = false := by
+  unfold ownLineMatch
+  have h1 : (strip [] == IC) = false := by decide
+  rw [h1, Bool.false_or]
+  cases code with
+  | none => rfl
+  | some c =>
+    simp only
+    have : strip [] = [] := by decide
+    rw [this, beq_eq_false_iff_ne]
+    unfold codedIC
+    intro e
+    have := congrArg List.length e
+    simp at this
+
+theorem verdict_eq (lines : List Line) (r : Raw) (hwf : wfAt lines r = true) :
     verdict lines r = match lineCredit lines r with
       | some i => .ign (i : Int)
       | none => .show := by
@@ -584,70 +601,20 @@ theorem verdict_eq (lines : List Line) (r : Raw) (hwf : wfAt lines r = true) (hw
       · simp only [ht, Bool.false_eq_true, if_false]
         by_cases h3 : 2 ≤ ln
         · have e2 : (ln : Int) - 2 = ((ln - 2 : Nat) : Int) := by omega
-          rw [e2, pyGet_nat]
+          rw [if_pos h3, e2, pyGet_nat]
           have hl2 : ln - 2 < lines.length := by omega
           rw [List.getElem?_eq_getElem hl2, ownLineAt_lt hl2]
           simp only [h3, decide_true, Bool.true_and]
           by_cases ho : ownLineMatch lines[ln - 2] r.code = true
           · simp [ho]
           · simp [ho]
-        · have hln : ln = 1 := by omega
-          subst hln
-          have hne : lines ≠ [] := by intro e; rw [e] at h2; simp at h2
-          have e2 : ((1 : Nat) : Int) - 2 = -1 := by omega
-          rw [e2, pyGet_neg_one lines hne]
-          unfold wrapsAt at hw
-          rw [hpos, hob] at hw
-          cases hlines : lines with
-          | nil => exact absurd hlines hne
-          | cons l0 rest =>
-            have hlast : (l0 :: rest).getLast? = some ((l0 :: rest).getLast (by simp)) :=
-              List.getLast?_eq_some_getLast (by simp)
-            subst hlines
-            rw [hlast] at hw ⊢
-            simp only [List.head?_cons, Bool.true_and, Bool.and_eq_false_imp, Bool.not_eq_eq_eq_not,
-              Bool.not_true] at hw
-            have ht0 : trailingMatch l0 r.code = false := by simpa using ht
-            have := hw ht0
-            simp [this]
+        · rw [if_neg h3]
+          simp [ownLineMatch_nil, h3]
 
 theorem verdict_ne_crash (lines : List Line) (r : Raw) (hwf : wfAt lines r = true) :
     verdict lines r ≠ .crash := by
-  unfold verdict
-  cases hob : r.obey with
-  | false => simp
-  | true =>
-    simp only [if_true]
-    cases hpos : r.pos with
-    | none => simp
-    | some p =>
-      obtain ⟨ln, c⟩ := p
-      simp only
-      unfold wfAt at hwf
-      rw [hpos, hob] at hwf
-      simp only [Bool.not_true, Bool.false_or, Bool.and_eq_true, decide_eq_true_eq] at hwf
-      obtain ⟨h1, h2⟩ := hwf
-      have e1 : (ln : Int) - 1 = ((ln - 1 : Nat) : Int) := by omega
-      rw [e1, pyGet_nat]
-      have hl : ln - 1 < lines.length := by omega
-      rw [List.getElem?_eq_getElem hl]
-      simp only
-      split
-      · simp
-      · by_cases h3 : 2 ≤ ln
-        · have e2 : (ln : Int) - 2 = ((ln - 2 : Nat) : Int) := by omega
-          rw [e2, pyGet_nat]
-          have hl2 : ln - 2 < lines.length := by omega
-          rw [List.getElem?_eq_getElem hl2]
-          simp only
-          split <;> simp
-        · have hln : ln = 1 := by omega
-          subst hln
-          have hne : lines ≠ [] := by intro e; rw [e] at h2; simp at h2
-          have e2 : ((1 : Nat) : Int) - 2 = -1 := by omega
-          rw [e2, pyGet_neg_one lines hne, List.getLast?_eq_some_getLast hne]
-          simp only
-          split <;> simp
+  rw [verdict_eq lines r hwf]
+  cases lineCredit lines r <;> simp
 
 theorem run_some_of_wf (en : String → Bool) (lines : List Line) (raw : List Raw)
     (hwf : RawWF lines raw = true) : ∀ st, ∃ st', run en lines st raw = some st' := by
@@ -706,9 +673,9 @@ theorem lineSuppressed_eq (lines : List Line) (r : Raw) :
           · exact ⟨ln - 2, ownLineAt_bound h2.2, Or.inr ⟨by omega, h2.2⟩⟩
           · rw [if_neg h2] at h; cases h
 
-theorem shown_eq (lines : List Line) (r : Raw) (hwf : wfAt lines r = true) (hw : wrapsAt lines r = false) :
+theorem shown_eq (lines : List Line) (r : Raw) (hwf : wfAt lines r = true) :
     (verdict lines r == .show) = !lineSuppressed lines r := by
-  rw [verdict_eq lines r hwf hw, lineSuppressed_eq]
+  rw [verdict_eq lines r hwf, lineSuppressed_eq]
   cases lineCredit lines r <;> rfl
 
 /-! ## 3d. The visit phase against the spec -/
@@ -723,17 +690,9 @@ theorem wf_of_mem {lines : List Line} {raw : List Raw} (hwf : RawWF lines raw = 
   unfold RawWF at hwf
   exact List.all_eq_true.mp hwf r h
 
-theorem nowrap_of_mem {en : String → Bool} {lines : List Line} {raw : List Raw}
-    (hD : D11_lineOneWrap en lines raw = false) {r : Raw}
-    (h : r ∈ nub (raw.filter (counted en))) (hf : fileSuppressed lines r.code = false) :
-    wrapsAt lines r = false := by
-  unfold D11_lineOneWrap at hD
-  have := List.any_eq_false.mp hD r h
-  simpa [hf] using this
-
 theorem run_fails_spec (en : String → Bool) (lines : List Line) (raw : List Raw) (st : St)
-    (hrun : run en lines {} raw = some st) (hwf : RawWF lines raw = true)
-    (hD : D11_lineOneWrap en lines raw = false) : st.fails = specFails en lines raw := by
+    (hrun : run en lines {} raw = some st) (hwf : RawWF lines raw = true) :
+    st.fails = specFails en lines raw := by
   have c := run_closed en lines raw {} st hrun
   rw [c.fails, dedupFrom_nil, nub_gate]
   unfold specFails specDiags
@@ -745,7 +704,7 @@ theorem run_fails_spec (en : String → Bool) (lines : List Line) (raw : List Ra
   cases hf : fileSuppressed lines r.code with
   | true => simp
   | false =>
-    have := shown_eq lines r (wf_of_mem hwf hraw) (nowrap_of_mem hD hr hf)
+    have := shown_eq lines r (wf_of_mem hwf hraw)
     rw [this]
     cases lineSuppressed lines r <;> cases r.save <;> rfl
 
@@ -784,8 +743,7 @@ theorem credited_eq (lines : List Line) (r : Raw) (i : Nat) :
   cases firstIdx (fun x => ownLineMatch x r.code) (leading lines) <;> simp
 
 theorem run_used_spec (en : String → Bool) (lines : List Line) (raw : List Raw) (st : St)
-    (hrun : run en lines {} raw = some st) (hwf : RawWF lines raw = true)
-    (hD : D11_lineOneWrap en lines raw = false) (i : Nat) :
+    (hrun : run en lines {} raw = some st) (hwf : RawWF lines raw = true) (i : Nat) :
     (i : Int) ∈ st.used ↔ creditedBySome en lines raw i = true := by
   have c := run_closed en lines raw {} st hrun
   rw [c.used, dedupFrom_nil]
@@ -810,7 +768,7 @@ theorem run_used_spec (en : String → Bool) (lines : List Line) (raw : List Raw
     · rintro ⟨r, hr, hv⟩
       obtain ⟨h1, h2⟩ := mem_nub_gate.mp hr
       have hraw : r ∈ raw := (List.mem_filter.mp (nub_subset h1)).1
-      rw [verdict_eq lines r (wf_of_mem hwf hraw) (nowrap_of_mem hD h1 h2)] at hv
+      rw [verdict_eq lines r (wf_of_mem hwf hraw)] at hv
       refine ⟨r, h1, h2, ?_⟩
       cases hl : lineCredit lines r with
       | none => rw [hl] at hv; cases hv
@@ -822,7 +780,7 @@ theorem run_used_spec (en : String → Bool) (lines : List Line) (raw : List Raw
     · rintro ⟨r, h1, h2, hl⟩
       have hraw : r ∈ raw := (List.mem_filter.mp (nub_subset h1)).1
       refine ⟨r, mem_nub_gate.mpr ⟨h1, h2⟩, ?_⟩
-      rw [verdict_eq lines r (wf_of_mem hwf hraw) (nowrap_of_mem hD h1 h2), hl]
+      rw [verdict_eq lines r (wf_of_mem hwf hraw), hl]
   rw [ha, hb]
   constructor
   · rintro (h | ⟨r, hr, h⟩ | ⟨r, hr, h⟩)
@@ -1018,14 +976,13 @@ theorem bare_file_suppresses (lines : List Line) (code : String) (i : Nat)
   simp only [Bool.or_false] at hm
   simp [hm]
 
-/-- **The whole check against the spec**, outside the wrap-around class. -/
-theorem check_eq_spec (en : String → Bool) (lines : List Line) (raw : List Raw)
-    (hwf : RawWF lines raw = true) (hast : RawAst raw = true)
-    (hD : D11_lineOneWrap en lines raw = false) :
+/-- **The whole check against the spec.** -/
+theorem check_eq_spec_aux (en : String → Bool) (lines : List Line) (raw : List Raw)
+    (hwf : RawWF lines raw = true) (hast : RawAst raw = true) :
     ∃ st, check en lines raw = some st ∧ st.fails = specCheck en lines raw := by
   obtain ⟨st1, h1⟩ := run_some_of_wf en lines raw hwf {}
-  have hf1 := run_fails_spec en lines raw st1 h1 hwf hD
-  have hu1 := run_used_spec en lines raw st1 h1 hwf hD
+  have hf1 := run_fails_spec en lines raw st1 h1 hwf
+  have hu1 := run_used_spec en lines raw st1 h1 hwf
   have c1 := run_closed en lines raw {} st1 h1
   have hseen1 : ∀ k ∈ st1.seen, ∃ r ∈ raw, k = r.key := by
     intro k hk
@@ -1556,35 +1513,11 @@ theorem noIgnore_suppressed {lines : List Line} (h : NoIgnore lines = true) (r :
   | false => rfl
   | true => exact absurd (lineTargets_bound ht) (Nat.lt_irrefl _)
 
-theorem wrapsAt_of_last {lines : List Line} (h : ∀ lz, lines.getLast? = some lz → ∀ code, ownLineMatch lz code = false)
-    (r : Raw) : wrapsAt lines r = false := by
-  unfold wrapsAt
-  cases r.obey with
-  | false => rfl
-  | true =>
-    simp only [Bool.true_and]
-    split
-    · rename_i l0 lz _ _ hz
-      simp [h lz hz]
-    · rfl
-
-theorem D_of_last {en : String → Bool} {lines : List Line} {raw : List Raw}
-    (h : ∀ lz, lines.getLast? = some lz → ∀ code, ownLineMatch lz code = false) :
-    D11_lineOneWrap en lines raw = false := by
-  unfold D11_lineOneWrap
-  rw [List.any_eq_false]
-  intro r _
-  simp [wrapsAt_of_last h r]
-
-theorem noIgnore_D {en : String → Bool} {lines : List Line} {raw : List Raw} (h : NoIgnore lines = true) :
-    D11_lineOneWrap en lines raw = false :=
-  D_of_last fun lz hz code => noIC_ownLine (noIgnore_mem h (List.mem_of_getLast? hz)) code
-
 /-- The visit-phase output of a file without ignore comments: the counted first occurrences. -/
 theorem noIgnore_fails {en : String → Bool} {lines : List Line} {raw : List Raw} {st : St}
     (hno : NoIgnore lines = true) (hwf : RawWF lines raw = true) (hrun : run en lines {} raw = some st) :
     st.fails = (nub (raw.filter (counted en))).filter (·.save) := by
-  rw [run_fails_spec en lines raw st hrun hwf (noIgnore_D hno)]
+  rw [run_fails_spec en lines raw st hrun hwf]
   unfold specFails specDiags
   congr 1
   rw [List.filter_eq_self]
@@ -1617,14 +1550,6 @@ theorem trailing_suppressed (lines : List Line) (i : Nat) (hi : i < lines.length
   | none => simp
   | some p => simp [Bool.and_assoc]
 
-theorem trailing_D {en : String → Bool} (lines : List Line) (i : Nat) (hi : i < lines.length) (s : Sel)
-    (hno : NoIgnore lines = true) (hplain : plainCode lines[i] = true) (raw : List Raw) :
-    D11_lineOneWrap en (lines.set i (withTrailing lines[i] s)) raw = false :=
-  D_of_last fun lz hz code => by
-    rcases List.mem_or_eq_of_mem_set (List.mem_of_getLast? hz) with a | a
-    · exact noIC_ownLine (noIgnore_mem hno a) _
-    · rw [a]; exact ownLine_withTrailing _ s hplain _
-
 theorem trailing_exact (en : String → Bool) (lines : List Line) (raw : List Raw) (i : Nat)
     (hi : i < lines.length) (s : Sel) (hno : NoIgnore lines = true)
     (hplain : plainCode lines[i] = true) (hs : s.ok = true) (hwf : RawWF lines raw = true) :
@@ -1636,7 +1561,7 @@ theorem trailing_exact (en : String → Bool) (lines : List Line) (raw : List Ra
     rw [RawWF_length (lines := lines) (by simp)]; exact hwf
   obtain ⟨st', h'⟩ := run_some_of_wf en _ raw hwf' {}
   refine ⟨st, st', h, h', ?_⟩
-  rw [noIgnore_fails hno hwf h, run_fails_spec en _ raw st' h' hwf' (trailing_D lines i hi s hno hplain raw)]
+  rw [noIgnore_fails hno hwf h, run_fails_spec en _ raw st' h' hwf']
   unfold specFails specDiags
   rw [List.filter_filter, List.filter_filter]
   apply List.filter_congr
@@ -1675,18 +1600,6 @@ theorem getLast?_append_ne_nil {α} (X B : List α) (h : B ≠ []) : (X ++ B).ge
   | nil => rfl
   | cons x xs ih =>
     rw [List.cons_append, List.getLast?_cons_of_ne_nil (by simp [h]), ih]
-
-theorem insertAt_D {en : String → Bool} (lines : List Line) (i : Nat) (cm : Line) (hi : i < lines.length)
-    (hno : NoIgnore lines = true) (raw : List Raw) : D11_lineOneWrap en (insertAt lines i cm) raw = false :=
-  D_of_last fun lz hz code => by
-    unfold insertAt at hz
-    have hne : lines.drop i ≠ [] := by
-      intro e
-      have := congrArg List.length e
-      simp only [List.length_drop, List.length_nil] at this
-      omega
-    rw [← List.singleton_append, ← List.append_assoc, getLast?_append_ne_nil _ _ hne] at hz
-    exact noIC_ownLine (noIgnore_mem hno (List.mem_of_mem_drop (List.mem_of_getLast? hz))) _
 
 theorem shift_key (i : Nat) (r : Raw) : (r.shift i).key = r.key := rfl
 theorem shift_counted (en : String → Bool) (i : Nat) (r : Raw) : counted en (r.shift i) = counted en r := rfl
@@ -1848,16 +1761,16 @@ theorem filelevel_suppressed (lines : List Line) (i : Nat) (s : Sel) (hi : i ≤
   cases s.matches r.code <;> simp
 
 theorem insert_exact (en : String → Bool) (lines : List Line) (raw : List Raw) (i k : Nat) (s : Sel)
-    (hi : i < lines.length) (hno : NoIgnore lines = true) (hwf : RawWF lines raw = true)
+    (hi : i ≤ lines.length) (hno : NoIgnore lines = true) (hwf : RawWF lines raw = true)
     (hit : Raw → Bool) (hsup : ∀ r, suppressed (insertAt lines i (ownLine k s)) (r.shift i) = hit r) :
     ∃ st st', run en lines {} raw = some st ∧
       run en (insertAt lines i (ownLine k s)) {} (raw.map (Raw.shift i)) = some st' ∧
       st'.fails = (st.fails.filter fun r => !hit r).map (Raw.shift i) := by
   obtain ⟨st, h⟩ := run_some_of_wf en lines raw hwf {}
-  have hwf' := wf_shift lines i (ownLine k s) (Nat.le_of_lt hi) raw hwf
+  have hwf' := wf_shift lines i (ownLine k s) hi raw hwf
   obtain ⟨st', h'⟩ := run_some_of_wf en _ _ hwf' {}
   refine ⟨st, st', h, h', ?_⟩
-  rw [noIgnore_fails hno hwf h, run_fails_spec en _ _ st' h' hwf' (insertAt_D lines i _ hi hno _),
+  rw [noIgnore_fails hno hwf h, run_fails_spec en _ _ st' h' hwf',
     specFails_shift]
   congr 1
   rw [List.filter_filter, List.filter_filter]
@@ -2028,10 +1941,9 @@ theorem check_emits_gate {en : String → Bool} {lines : List Line} {raw : List 
 /-! ## 9. Unused comments, pointwise -/
 
 theorem unusedRaws_spec (en : String → Bool) (lines : List Line) (raw : List Raw) (st : St)
-    (hrun : run en lines {} raw = some st) (hwf : RawWF lines raw = true)
-    (hD : D11_lineOneWrap en lines raw = false) :
+    (hrun : run en lines {} raw = some st) (hwf : RawWF lines raw = true) :
     unusedRaws lines st.used = fakeDiags "unused_ignore" (specUnused en lines raw) := by
-  have hu1 := run_used_spec en lines raw st hrun hwf hD
+  have hu1 := run_used_spec en lines raw st hrun hwf
   rw [unusedRaws_eq]; unfold specUnused
   congr 1
   apply List.filter_congr
@@ -2069,10 +1981,10 @@ theorem enumFrom_fun {i : Nat} {lines : List Line} {p q : Nat × Line}
 credited to it. -/
 theorem unused_pointwise (en : String → Bool) (lines : List Line) (raw : List Raw) (st : St)
     (hrun : run en lines {} raw = some st) (hwf : RawWF lines raw = true)
-    (hD : D11_lineOneWrap en lines raw = false) (p : Nat × Line) (hp : p ∈ commentLines lines) :
+    (p : Nat × Line) (hp : p ∈ commentLines lines) :
     commentDiag "unused_ignore" p.1 p.2 ∈ unusedRaws lines st.used ↔
       ∀ r ∈ nub (raw.filter (counted en)), credited lines r ≠ some p.1 := by
-  rw [unusedRaws_spec en lines raw st hrun hwf hD]
+  rw [unusedRaws_spec en lines raw st hrun hwf]
   unfold fakeDiags specUnused
   have hcred : creditedBySome en lines raw p.1 = false ↔
       ∀ r ∈ nub (raw.filter (counted en)), credited lines r ≠ some p.1 := by
@@ -2275,14 +2187,24 @@ theorem tok_imp_py (c : Char) (h : isTokBreak c = true) : isPyBreak c = true := 
   simp only [Bool.or_eq_true, beq_iff_eq] at h
   rcases h with h | h <;> simp [h]
 
-theorem pyLines_eq_tokLines (src : List Char) (h : D11_splitlinesMismatch src = false) :
-    pyLines src = tokLines src := by
-  unfold pyLines tokLines
+/-- What `_lines()` computed before ba62f49 agrees with the tokenizer's lines only without the
+extra separators (regression documentation). -/
+theorem oldPyLines_eq_tokLines (src : List Char) (h : D11_splitlinesMismatch src = false) :
+    oldPyLines src = tokLines src := by
+  unfold oldPyLines tokLines
   apply splitBy_congr
   intro c hc
   unfold D11_splitlinesMismatch at h
   have h1 := List.any_eq_false.mp h c hc
   have h2 := tok_imp_py c
   cases hx : isPyBreak c <;> cases hy : isTokBreak c <;> simp_all
+
+/-- The repaired `_lines()`: the regex's characters are the tokenizer's line ends. -/
+theorem pyLines_eq_tokLines (src : List Char) : pyLines src = tokLines src := by
+  unfold pyLines tokLines
+  apply splitBy_congr
+  intro c _
+  unfold isReBreak isTokBreak
+  exact Bool.or_comm _ _
 
 end Pya.C11
